@@ -136,6 +136,55 @@ def distinguishing_predicates(paths):
     return list(uniq.values())
 
 
+PANICKING_SLICE_OPS = {'::split_at': 'end', '::split_at_mut': 'end', '::split_at_checked': None}
+
+
+def check_no_panic_on_symbol(ctx, F):
+    """An out-of-support symbol must come back as `None` (and then as the impossible-symbol error), not as a panic: in the
+    support decision of every encoder-side model, a slice operation that panics out of range (split_at, built-in index
+    checks) and whose position is computed from the symbol must be dominated by a guard that puts the position in range.
+    Uses the same difference-bound entailment as the unsafe-site audit (C20 BOUND)."""
+    import props.C20 as c20
+    from vlib import dbm as dbmmod
+    impls = [b for b in F.bodies if b.promoted is None and b.name == LOOKUP and b.impl_trait == MODEL_TRAIT and b.dk == 'AssocFn' and not b.defpath.startswith('<pybindings')]
+    n_sites = 0
+    is_sym = lambda x: x == ('arg', 2) or (isinstance(x, tuple) and x and x[0] == 'in' and x[1][0] == 2)
+    for b in impls:
+        ev, paths = rules.evaluate(b)
+        if not paths:
+            continue
+        sites = {}
+        for r in paths:
+            for i, e in enumerate(r.events):
+                if e['kind'] == 'call':
+                    kind = [k for sfx, k in PANICKING_SLICE_OPS.items() if e['callee'].endswith(sfx) and k]
+                    if not kind or len(e.get('args_val') or []) != 2 or not sym.contains(e['args_val'][1], is_sym):
+                        continue
+                    e0 = dict(e)
+                    e0['args_val'] = [e['args_val'][0], ('agg', ('adt', 'core::ops::RangeTo', 'RangeTo'), (e['args_val'][1],), ('end',))]
+                    why = c20.try_bound(F, r, i, e0)
+                    k = (e['callee'], (e.get('span') or '').split('-')[0])
+                    sites[k] = sites.get(k, True) and bool(why)
+                elif e['kind'] == 'assert' and 'BoundsCheck' in str(e.get('msg')) and sym.contains(e['cond'], is_sym):
+                    c = e['cond']
+                    d = dbmmod.DBM()
+                    dbmmod.harvest(d, r.preds[:rules.preds_before(r, i)])
+                    ok = c[0] == 'bin' and c[1] == 'Lt' and d.entails_le(c[2], c[3], strict=True)
+                    k = ('index bounds check', str(e['block']))
+                    sites[k] = sites.get(k, True) and ok
+        for (what, where), ok in sorted(sites.items()):
+            n_sites += 1
+            key = 'R2/no-panic-on-symbol/%s/%s' % (b.defpath, what)
+            role = 'an out-of-range symbol cannot make the support decision panic'
+            ctx.touch(b)
+            if ok:
+                ctx.ok('R2', role, b.defpath, '%s at a symbol-derived position is dominated by an in-range guard' % what, key=key)
+            else:
+                ctx.bad('R2', role, b.defpath, '%s is reached with a position computed from the symbol and no dominating guard puts it in range: a symbol beyond the support makes the model panic instead of returning None, '
+                        'so no coder reports the impossible-symbol error' % what, key=key, loc=where if ':' in where else rules.loc(b))
+    ctx.extra['panicking_symbol_sites'] = n_sites
+
+
 def check_support_decision(ctx, F):
     W = Wide(F)
     impls = [b for b in F.bodies if b.promoted is None and b.name == LOOKUP and b.impl_trait == MODEL_TRAIT and b.dk == 'AssocFn']
@@ -372,6 +421,7 @@ def run(ctx):
                 check_support_decision(ctx, F)
                 check_coders(ctx, F)
                 check_huffman(ctx, F)
+                check_no_panic_on_symbol(ctx, F)
                 from vlib import errdisc
                 errdisc.check(ctx, F, floor=120)     # the impossible-symbol error (and every other) reaches the caller
             else:
